@@ -8,6 +8,7 @@
 Not decided: the input/output relation over all boards and tie patterns."""
 from sa import idioms as I, loops as L, prov as P
 from sa.report import Unrecognised
+from rules import runpass
 
 SHOWDOWN = "evaluator::showdown::Showdown"
 PLAYER = "evaluator::showdown::ShowdownPlayer"
@@ -23,6 +24,118 @@ def U(rule, msg, fn=None):
 
 def contains_term(t, sub):
     return any(s == sub for s in P.walk(t))
+
+
+def _two_pass(ctx, F, fn, pr, fl, main, rule, is_p, is_b, lt_edges, le_edges, assign_blocks, made, ty):
+    """the two-pass form of the selection: (1) best = min over all players (`if p < best { best = p }` for every player),
+    (2) after that loop, every player's flag is set to (its own index == best).  Returns whether the flag pass has that form;
+    problems of pass 1 are reported under `rule`."""
+    problems = []
+    tails = [t for (t, h) in fn.cfg.back_edges() if h == main.header]
+    if len(assign_blocks) != 1:
+        raise U(rule, f"expected one `best = p` in the player loop; found {len(assign_blocks)}", fn)
+    ab = assign_blocks[0]
+    if not I.guarded_by(fn, ab, le_edges, start=main.header):
+        problems.append(("best-update", "`best = p` is not guarded by `p < best`", ab))
+    inner_lt = [(b, l) for (b, l) in lt_edges if b in main.body]
+    if not inner_lt:
+        problems.append(("best-update", "no `p < best` test in the player loop", ab))
+    for (b, l) in inner_lt:
+        tgt = [t for l_, t in fn.cfg.succ_edges[b] if l_ == l][0]
+        r = I.reachable_avoiding(fn, [], start=tgt, removed_blocks=[ab])
+        if any(t in r for t in tails):
+            problems.append(("best-update-skipped", "a stronger hand (p < best) does not always become the new best", b))
+    for key, msg, bi in problems:
+        ctx.violation(rule, f"{fn.path}|{key}", msg, fn=fn.path, file=fn.file, line=fn.blocks[bi]["line"],
+                      construct="min-selection (two-pass): " + key)
+    # pass 2
+    isw = F.fn(PLAYER + "::is_winner")
+    g = I.getter_field(isw)
+    if g is None:
+        raise U(rule, "is_winner is not a field getter", isw)
+    k = g[0]
+    flag_loops = [lp for lp in fl if lp is not main]
+    stores = []
+    for l, lst in pr.stores.items():
+        for (sb, si, pl, rv) in lst:
+            pj = pl["proj"]
+            if pj and isinstance(pj[-1], dict) and pj[-1].get("f") == k and pj[-1].get("of") == PLAYER:
+                stores.append((sb, pr.rvalue(rv) if "callterm" not in rv else None, pl))
+    why = None
+    if len(flag_loops) != 1 or len(stores) != 1:
+        why = f"{len(flag_loops)} loops after the player loop / {len(stores)} stores into the win flag (expected 1 / 1)"
+    else:
+        lp = flag_loops[0]
+        sb, sval, spl = stores[0]
+        src2, chain2 = lp.chain()
+        # the players vector: the local receiving push(ShowdownPlayer {..}) in the main loop
+        vecs = set()
+        for bi, t in fn.calls():
+            if bi in main.body and t["callee"].get("name") == "push":
+                v = P.strip(pr.operand(t["args"][1]))
+                if v[0] == "agg" and v[1].startswith("adt:" + PLAYER):
+                    vecs.add(P.strip(pr.operand(t["args"][0])))
+        hand_k = None
+        for bi in fn.cfg.reachable:
+            for st in fn.blocks[bi]["stmts"]:
+                if st["k"] == "assign" and "agg" in st["rv"] and isinstance(st["rv"]["agg"], dict) and st["rv"]["agg"].get("adt") == PLAYER:
+                    a = pr.rvalue(st["rv"])
+                    ks = [i for i, o in enumerate(a[2]) if P.strip(o) == P.strip(made)]
+                    if len(ks) == 1:
+                        hand_k = ks[0]
+        item = P.strip(lp.item_term)
+
+        def is_p2(t):
+            s_ = P.strip(t)
+            if s_[0] == "call" and len(s_[2]) == 1:
+                gfn = F.fns.get(s_[1])
+                if gfn is None or I.getter_field(gfn) is None:
+                    return False
+                h = P.strip(s_[2][0])
+            elif s_[0] == "field":
+                h = P.strip(s_[1])
+            else:
+                return False
+            return h[0] == "field" and h[2] == hand_k and P.strip(h[1]) == item
+        if len(vecs) != 1 or P.strip(src2) not in vecs:
+            why = "the flag loop does not run over the players collected by the first loop"
+        elif any(c.rsplit("::", 1)[-1] in ("skip", "take", "rev", "filter", "step_by", "zip", "filter_map", "take_while", "skip_while")
+                 for c in chain2):
+            why = "the flag loop skips players"
+        elif not (fn.cfg.dominates(main.exit_block, lp.header) and main.header not in fn.cfg.reach_from(lp.header)):
+            why = "the flag loop does not come after the minimum is complete"
+        elif hand_k is None:
+            why = "the evaluated hand is not stored in the player record"
+        elif runpass.early_exits(fn, lp):
+            why = "the flag loop can stop early"
+        else:
+            base = spl["l"]
+            if sval == ("bool", True):
+                edges = I.edges_implying(fn, pr, "Eq", is_p2, is_b, F=F)
+                ne = I.edges_implying(fn, pr, "Ne", is_p2, is_b, F=F)
+                edges = [e for e in edges if e[0] in lp.body]
+                if not edges or not I.guarded_by(fn, sb, edges, start=lp.header):
+                    why = "the win flag is set without `p == best`"
+                else:
+                    for (b, l) in edges:
+                        tgt = [t for l_, t in fn.cfg.succ_edges[b] if l_ == l][0]
+                        r = I.reachable_avoiding(fn, [], start=tgt, removed_blocks=[sb])
+                        if lp.header in r:
+                            why = "a player that ties the best is not always flagged"
+            else:
+                rel = I.norm_rel(P.strip(sval, calls=False), True) if sval is not None else None
+                if rel is None or rel[0] != "Eq" or not ((is_p2(rel[1]) and is_b(rel[2])) or (is_p2(rel[2]) and is_b(rel[1]))):
+                    why = "the stored flag is not (player's hand index == best)"
+                elif not L.in_every_iteration(fn, lp, sb):
+                    why = "the flag is not computed for every player"
+    if why:
+        ctx.violation(rule, f"{fn.path}|two-pass-flag", "two-pass selection: " + why, fn=fn.path, file=fn.file, line=fn.line,
+                      construct="min-selection (two-pass): flag pass")
+        return False
+    if not problems:
+        ctx.ok(rule, {"best_init": f"{ty}::MAX", "form": "two-pass: best = min(p); win = (p == best) for every player", "ties": "kept"},
+               sample=True)
+    return True
 
 
 def run(ctx, prefix="C03", set_explanation=True):
@@ -43,11 +156,16 @@ def run(ctx, prefix="C03", set_explanation=True):
     main = main[0]
     src, chain = main.chain()
     names = [c.rsplit("::", 1)[-1] for c in chain]
-    if "enumerate" not in names or any(n in ("rev", "skip", "take", "filter", "step_by", "zip") for n in names):
-        raise U(prefix + ".shape", f"player loop is not `players.into_iter().enumerate()`: {chain}", fn)
+    if any(n in ("rev", "skip", "take", "filter", "step_by", "zip", "filter_map", "take_while", "skip_while") for n in names):
+        raise U(prefix + ".shape", f"player loop is not a plain loop over all players: {chain}", fn)
     item = main.item_term
-    pos = ("field", item, 0)
-    player = ("field", item, 1)
+    if "enumerate" in names:
+        pos = ("field", item, 0)
+        player = ("field", item, 1)
+    else:
+        # no position at all (two-pass form: minimum first, then flag the players that tie it)
+        pos = None
+        player = P.strip(item)
 
     def card_class(t):
         s = P.strip(t)
@@ -57,6 +175,8 @@ def run(ctx, prefix="C03", set_explanation=True):
             return ("hole", s[2])
         if s[0] == "index" and P.strip(s[1]) == ("param", 2):
             return ("board", P.const_int(s[2]))
+        if s[0] == "cindex" and P.strip(s[1]) == ("param", 2):   # `let [b0, ..] = board` pattern
+            return ("board", s[2])
         if s[0] == "cindex" and P.strip(s[1]) == ("param", 2):   # `let [b0, ..] = board` pattern
             return ("board", s[2])
         return ("other", P.show_key(s))
@@ -127,7 +247,8 @@ def run(ctx, prefix="C03", set_explanation=True):
 
     # ---- rule 3 ---------------------------------------------------------------------------
     rule = prefix + ".min-discipline"
-    ctx.rule(rule, "best = MAX; under p < best: best = p and winners.clear(); under p <= best (ties included): winners.insert(i)")
+    ctx.rule(rule, "best = MAX; under p < best: best = p and winners.clear(); under p <= best (ties included): winners.insert(i) "
+                   "[or, two-pass: best = min over all players, then every player is flagged with (p == best)]")
 
     def is_p(t):
         s = P.strip(t)
@@ -168,53 +289,59 @@ def run(ctx, prefix="C03", set_explanation=True):
             continue
         nm = t["callee"].get("name")
         recv = P.strip(pr.operand(t["args"][0]))
-        if nm == "insert" and P.strip(pr.operand(t["args"][1])) == pos:
+        if nm == "insert" and pos is not None and P.strip(pr.operand(t["args"][1])) == pos:
             ins.append(bi)
             wset = recv
         if nm == "clear":
             clr.append((bi, recv))
-    if wset is None or not ins:
+    uses_set = any(I.callee_path(t).startswith("std::collections::HashSet") for _b, t in fn.calls())
+    two_pass = wset is None and not uses_set
+    flag_two_pass_ok = None
+    if two_pass:
+        flag_two_pass_ok = _two_pass(ctx, F, fn, pr, fl, main, rule, is_p, is_b, lt_edges, le_edges, assign_blocks, made, ty)
+    elif wset is None or not ins:
         raise U(rule, "no winners.insert(position) found", fn)
-    clr = [bi for bi, r in clr if r == wset]
-    problems = []
-    if len(assign_blocks) != 1 or len(clr) != 1 or not ins:
-        raise U(rule, f"expected one best=p, one clear and at least one insert in the loop; found {len(assign_blocks)}/{len(clr)}/{len(ins)}", fn)
-    ab, cbk = assign_blocks[0], clr[0]
-    if not I.guarded_by(fn, ab, lt_edges, start=main.header):
-        problems.append(("best-update", "`best = p` is not guarded by `p < best`", ab))
-    if not I.guarded_by(fn, cbk, lt_edges, start=main.header):
-        problems.append(("clear", "`winners.clear()` is not guarded by `p < best`", cbk))
-    if not (fn.cfg.dominates(ab, cbk) or fn.cfg.dominates(cbk, ab)):
-        problems.append(("clear-pairing", "`best = p` and `winners.clear()` are on different paths", cbk))
-    for ib in ins:
-        if not I.guarded_by(fn, ib, le_edges, start=main.header):
-            problems.append(("insert", "`winners.insert(i)` is not guarded by `p <= best`", ib))
-    if all(I.guarded_by(fn, ib, lt_edges, start=main.header) for ib in ins):
-        problems.append(("ties", "`winners.insert(i)` only happens under `p < best`: ties are dropped", ins[0]))
-    # an equal hand must always be inserted: every path from a `p == best`-only edge ... (covered by the tie rule and the
-    # new-best rule below for the single-comparison idioms)
-    # a new best must always be inserted: every path from the update back to the loop header passes an insert
-    tails = [t for (t, h) in fn.cfg.back_edges() if h == main.header]
-    r = I.reachable_avoiding(fn, [], start=ab, removed_blocks=ins)
-    if any(t in r for t in tails) and ab not in ins:
-        problems.append(("new-best-inserted", "a path from `best = p` to the next iteration skips `winners.insert(i)`", ab))
-    # a clear must not wipe the new best: no insert before the clear on the update path
-    for ib in ins:
-        if fn.cfg.dominates(ib, cbk) and ib != cbk:
-            problems.append(("insert-before-clear", "the new best is inserted before `winners.clear()`", ib))
-    # p > best must not insert: insert unreachable when all <=-implying edges are removed (same as guarded_by above)
-    if problems:
-        for key, msg, bi in problems:
-            ctx.violation(rule, f"{fn.path}|{key}", msg, fn=fn.path, file=fn.file, line=fn.blocks[bi]["line"],
-                          construct="min-selection: " + key)
     else:
-        ctx.ok(rule, {"best_init": f"{ty}::MAX", "reset": "p < best", "insert": "p <= best", "ties": "kept"}, sample=True)
+        clr = [bi for bi, r in clr if r == wset]
+        problems = []
+        if len(assign_blocks) != 1 or len(clr) != 1 or not ins:
+            raise U(rule, f"expected one best=p, one clear and at least one insert in the loop; found {len(assign_blocks)}/{len(clr)}/{len(ins)}", fn)
+        ab, cbk = assign_blocks[0], clr[0]
+        if not I.guarded_by(fn, ab, lt_edges, start=main.header):
+            problems.append(("best-update", "`best = p` is not guarded by `p < best`", ab))
+        if not I.guarded_by(fn, cbk, lt_edges, start=main.header):
+            problems.append(("clear", "`winners.clear()` is not guarded by `p < best`", cbk))
+        if not (fn.cfg.dominates(ab, cbk) or fn.cfg.dominates(cbk, ab)):
+            problems.append(("clear-pairing", "`best = p` and `winners.clear()` are on different paths", cbk))
+        for ib in ins:
+            if not I.guarded_by(fn, ib, le_edges, start=main.header):
+                problems.append(("insert", "`winners.insert(i)` is not guarded by `p <= best`", ib))
+        if all(I.guarded_by(fn, ib, lt_edges, start=main.header) for ib in ins):
+            problems.append(("ties", "`winners.insert(i)` only happens under `p < best`: ties are dropped", ins[0]))
+        # an equal hand must always be inserted: every path from a `p == best`-only edge ... (covered by the tie rule and the
+        # new-best rule below for the single-comparison idioms)
+        # a new best must always be inserted: every path from the update back to the loop header passes an insert
+        tails = [t for (t, h) in fn.cfg.back_edges() if h == main.header]
+        r = I.reachable_avoiding(fn, [], start=ab, removed_blocks=ins)
+        if any(t in r for t in tails) and ab not in ins:
+            problems.append(("new-best-inserted", "a path from `best = p` to the next iteration skips `winners.insert(i)`", ab))
+        # a clear must not wipe the new best: no insert before the clear on the update path
+        for ib in ins:
+            if fn.cfg.dominates(ib, cbk) and ib != cbk:
+                problems.append(("insert-before-clear", "the new best is inserted before `winners.clear()`", ib))
+        # p > best must not insert: insert unreachable when all <=-implying edges are removed (same as guarded_by above)
+        if problems:
+            for key, msg, bi in problems:
+                ctx.violation(rule, f"{fn.path}|{key}", msg, fn=fn.path, file=fn.file, line=fn.blocks[bi]["line"],
+                              construct="min-selection: " + key)
+        else:
+            ctx.ok(rule, {"best_init": f"{ty}::MAX", "reset": "p < best", "insert": "p <= best", "ties": "kept"}, sample=True)
 
     # ---- rule 4 ---------------------------------------------------------------------------
     rule = prefix + ".position-generic"
     ctx.rule(rule, "the player position is used only as a member of the winner set (no positional privilege)")
     flag_loops = [lp for lp in fl if lp is not main]
-    positions = [pos] + [("field", lp.item_term, 0) for lp in flag_loops if "enumerate" in [c.rsplit("::", 1)[-1] for c in lp.chain()[1]]]
+    positions = ([pos] if pos is not None else []) + [("field", lp.item_term, 0) for lp in flag_loops if "enumerate" in [c.rsplit("::", 1)[-1] for c in lp.chain()[1]]]
     bad_uses = []
     n_uses = 0
     for bi in sorted(fn.cfg.reachable):
@@ -276,22 +403,34 @@ def run(ctx, prefix="C03", set_explanation=True):
             pj = pl["proj"]
             if pj and isinstance(pj[-1], dict) and pj[-1].get("f") == k and pj[-1].get("of") == PLAYER:
                 stores.append((sb, pr.rvalue(rv) if "callterm" not in rv else None, pl))
-    if len(stores) != 1 or stores[0][1] != ("bool", True) or len(flag_loops) != 1:
+    if two_pass:
+        ok5 = ok5 and bool(flag_two_pass_ok)
+    elif len(stores) != 1 or len(flag_loops) != 1:
         ok5 = False
     else:
         lp = flag_loops[0]
         src2, chain2 = lp.chain()
         pos2 = ("field", lp.item_term, 0)
-        edges = []
-        for b, lab, truth, term in I.bool_edges(fn, pr):
-            if term[0] == "call" and term[1].rsplit("::", 1)[-1] == "contains" and truth and P.strip(term[2][0]) == wset \
-                    and P.strip(term[2][1]) == pos2:
-                edges.append((b, lab))
-        sb = stores[0][0]
-        if not edges or not I.guarded_by(fn, sb, edges, start=lp.header):
+        sb, sval = stores[0][0], stores[0][1]
+
+        def is_member_test(term):
+            return term[0] == "call" and term[1].rsplit("::", 1)[-1] == "contains" and P.strip(term[2][0]) == wset \
+                and P.strip(term[2][1]) == pos2
+        if sval == ("bool", True):
+            edges = [(b, lab) for b, lab, truth, term in I.bool_edges(fn, pr) if truth and is_member_test(term)]
+            if not edges or not I.guarded_by(fn, sb, edges, start=lp.header):
+                ok5 = False
+            # and the reverse: the contains-true edge always reaches the store
+            if edges and not all(sb in fn.cfg.reach_from(fn.cfg.succ_edges[b][[l_ for l_, _ in fn.cfg.succ_edges[b]].index(lab)][1]) for b, lab in edges):
+                ok5 = False
+        elif sval is not None and is_member_test(P.strip(sval, calls=False)):
+            # player.win = winners.contains(&i), for every player
+            if not L.in_every_iteration(fn, lp, sb):
+                ok5 = False
+        else:
             ok5 = False
-        # and the reverse: the contains-true edge always reaches the store
-        if edges and not all(sb in fn.cfg.reach_from(fn.cfg.succ_edges[b][[l_ for l_, _ in fn.cfg.succ_edges[b]].index(lab)][1]) for b, lab in edges):
+        if any(c.rsplit("::", 1)[-1] in ("skip", "take", "rev", "filter", "step_by", "zip", "filter_map", "take_while", "skip_while")
+               for c in chain2) or runpass.early_exits(fn, lp):
             ok5 = False
     # winner_len
     prw = P.Prov(wl)
@@ -303,7 +442,15 @@ def run(ctx, prefix="C03", set_explanation=True):
         while r[0] == "cast":
             r = r[2]
         players_field = [i for i, f in enumerate(F.adts[SHOWDOWN]["variants"][0]["fields"]) if PLAYER in f["ty"]]
-        if r[0] == "call" and r[1].rsplit("::", 1)[-1] == "count" and r[2]:
+        is_count = r[0] == "call" and r[1].rsplit("::", 1)[-1] == "count" and r[2]
+        if r[0] == "call" and r[1].rsplit("::", 1)[-1] == "fold" and len(r[2]) == 3 and P.const_int(r[2][1]) == 0:
+            # fold(0, |n, _| n + 1) is count()
+            fc = r[2][2]
+            if fc[0] == "agg" and fc[1].startswith("closure:") and fc[1][len("closure:"):] in F.fns:
+                ff = F.fns[fc[1][len("closure:"):]]
+                ft = P.strip(P.Prov(ff).local(0)) if not ff.cfg.has_loops() else None
+                is_count = bool(ft) and ft[0] == "bin" and ft[1] == "Add" and P.strip(ft[2]) == ("param", 2) and P.const_int(ft[3]) == 1
+        if is_count:
             flt = P.strip(r[2][0], calls=False)
             if flt[0] == "call" and flt[1].rsplit("::", 1)[-1] == "filter" and len(flt[2]) == 2:
                 src_, ch_ = L.iterator_chain(flt[2][0])
